@@ -1,4 +1,4 @@
 From Coq Require Import Extraction ExtrOcamlBasic.
-From SV Require Import Base.Bytes Model.Headers Proofs.HeadersP.
+From SV Require Import Base.Bytes Model.Headers Proofs.HeadersP Model.Request Spec.Framing.
 Extraction Language OCaml.
-Extraction "c14_model.ml" hstep oracle_c14_step ascii_try_from all_ascii.
+Extraction "c14_model.ml" hstep oracle_c14_step ascii_try_from all_ascii request_of_head oracle_c14_req.
